@@ -19,7 +19,7 @@ func main() { harness.Main("C12", "exploration", run) }
 
 func run(e *harness.Env) {
 	e.Rule = "full product per sub-space. (di) every element sequence of total length <=3 (quick) / <=4 (thorough) over " +
-		"{H1..H4, short paragraph, paragraph 3x the configured maximum, list-intro paragraph, flat list, nested list, 2x2 table, image with/without alt} " +
+		"{H1..H4, short paragraph (1 word / 3-word sentence), paragraph 3x the configured maximum, list-intro paragraph, flat list, nested list, 2x2 table, image with/without alt} " +
 		"x every cut into <=2 pages x {all 18 size configurations and presets on the plain variant; default/small/tiny on the variants " +
 		"headings-as-TOC-matched-paragraphs, offset page numbers, empty page first/middle/last} (length 4: 8 configurations on the plain variant, small on 3 variants); " +
 		"(di-nest) every heading-level sequence over H1..H4 of length <=5 (quick) / <=6 (thorough), one body element per heading; " +
@@ -86,7 +86,8 @@ func owned(e *harness.Env, base string) (bool, map[string]bool) {
 
 var failSeen = map[string]int{}
 
-func report(e *harness.Env, base string, only map[string]bool, nontrivial bool, j judged) {
+func report(e *harness.Env, base string, only map[string]bool, nel int, j judged) {
+	nontrivial := nel >= 2
 	failed := false
 	for _, c := range clauses {
 		v, bad := j.bad[c]
@@ -98,7 +99,7 @@ func report(e *harness.Env, base string, only map[string]bool, nontrivial bool, 
 		// the harness keeps every failing descriptor (known-finding matching); keep the payload of the
 		// first cases of each signature only
 		failSeen[v.sig]++
-		if failSeen[v.sig] > 40 && !e.Replaying() {
+		if failSeen[v.sig] > 40 && nel > 2 && !e.Replaying() {
 			e.Fail(base+" clause="+c, v.sig, v.detail, nil)
 			continue
 		}
@@ -131,7 +132,7 @@ func evalCase(e *harness.Env, base string, only map[string]bool, spec docSpec, l
 	for _, p := range spec.pages {
 		nel += len(p)
 	}
-	report(e, base, only, nel >= 2, judge(b, chunks, layoutView))
+	report(e, base, only, nel, judge(b, chunks, layoutView))
 }
 
 // ---- sequences and cuts -------------------------------------------------------------------------
